@@ -137,6 +137,55 @@ namespace pl
         friend bool operator>=(const Tracked& a, const Tracked& b) { return a.value() >= b.value(); }
     };
 
+    // An alternative whose copy and move ASSIGNMENT are defaulted (trivial) while construction and destruction are not:
+    // a container may assign such objects bytewise when both sides already hold one, but must never replace
+    // construction/destruction by a byte copy. The registry records which type was constructed at which address.
+    template <int TAG>
+    struct TrivAssign
+    {
+        static const int tag = TAG;
+        int v;
+        void born()
+        {
+            Reg& r = Reg::get();
+            if (r.live.count(this)) r.err("object constructed on an address that already holds a live object (" + std::to_string(TAG) + ")");
+            r.live[this] = TAG;
+            ++r.constructed;
+        }
+        static void use(const TrivAssign* p, const char* what)
+        {
+            Reg& r = Reg::get();
+            auto it = r.live.find(p);
+            if (it == r.live.end()) r.err(std::string(what) + " of an object that is not alive (never constructed or already destroyed), type tag " + std::to_string(TAG));
+            else if (it->second != TAG) r.err(std::string(what) + " of an object of type tag " + std::to_string(TAG) + " at an address where an object of type tag " + std::to_string(it->second) + " was constructed (and never destroyed)");
+        }
+        explicit TrivAssign(int x) : v(x) { born(); }
+        TrivAssign(const TrivAssign& o) : v(o.v) { use(&o, "copy-construction from"); born(); }
+        TrivAssign(TrivAssign&& o) noexcept : v(o.v) { use(&o, "move-construction from"); born(); }
+        TrivAssign& operator=(const TrivAssign&) = default;
+        TrivAssign& operator=(TrivAssign&&) = default;
+        ~TrivAssign()
+        {
+            Reg& r = Reg::get();
+            auto it = r.live.find(this);
+            if (it == r.live.end()) r.err("destructor run on an object that is not alive (double destruction or never constructed), type tag " + std::to_string(TAG));
+            else
+            {
+                if (it->second != TAG) r.err("destructor of type tag " + std::to_string(TAG) + " run at an address where an object of type tag " + std::to_string(it->second) + " was constructed");
+                r.live.erase(it);
+            }
+            ++r.destroyed;
+        }
+        int value() const { use(this, "read"); return v; }
+        bool moved_from() const { return false; }
+        friend bool operator==(const TrivAssign& a, const TrivAssign& b) { return a.value() == b.value(); }
+        friend bool operator!=(const TrivAssign& a, const TrivAssign& b) { return a.value() != b.value(); }
+        friend bool operator<(const TrivAssign& a, const TrivAssign& b) { return a.value() < b.value(); }
+        friend bool operator>(const TrivAssign& a, const TrivAssign& b) { return a.value() > b.value(); }
+        friend bool operator<=(const TrivAssign& a, const TrivAssign& b) { return a.value() <= b.value(); }
+        friend bool operator>=(const TrivAssign& a, const TrivAssign& b) { return a.value() >= b.value(); }
+    };
+
     // arms the throw points for the duration of one implementation call
     // (the explorer has already set countdown and reset points for this step)
     struct Arm
